@@ -250,8 +250,10 @@ def unlock_apdus(apdus):
 
 def run_config(acc, c, tmpdir, live=False):
     from ..stack import Stack
-    if c.get("unlock_fault") and c["platform"] != "ledger":
-        c["unlock_fault"] = None     # (only the Ledger's UNLOCK exchange is targeted)
+    if c.get("unlock_fault") and c["platform"] == "tcp":
+        c["unlock_fault"] = None     # (TCPSigner: no PIN, no unlock exchange)
+    if c.get("unlock_fault") == "late" and c["platform"] == "sgx":
+        c["unlock_fault"] = "timeout"    # (a byte stream has no late answers of this kind)
     dev = make_device(c)
 
     class _P:    # pin handed to Stack; FileBasedPin built after Platform is set
@@ -280,8 +282,10 @@ def run_config(acc, c, tmpdir, live=False):
             from ..simdev.transport import Fault
             f = Fault(c["unlock_fault"], processed=True) if c["unlock_fault"] != "late" \
                 else Fault("late")
-            s.bus.arm_cmd({0xFE: f})
-            acc.count("unlock_exchange_faults")
+            s.bus.arm_cmd({0xFE: f, 0xA3: f})
+            # (over TCP the failure comes in the shapes the dongle layer classifies)
+            s.bus.tcp_faults_as_hid = True
+            acc.count("unlock_exchange_faults" + ("_sgx" if c["platform"] == "sgx" else ""))
         if live:
             hang = {}
             served, exc = run_live(s, (lambda **kw: hang.update(kw))
